@@ -140,8 +140,10 @@ def brief(x, limit=80):
         return f'<{type(x).__name__}: repr failed: {exc}>'
 
 
-def mismatch(got, want):
-    """None if got is the defined value `want`, else a short reason."""
+def mismatch(got, want, scale=0):
+    """None if got is the defined value `want`, else a short reason.
+    scale: largest magnitude met while computing want (C02: the rounding
+    error of a float evaluation is relative to it, not to the result)"""
     if isinstance(got, BaseException):
         return f'raised {type(got).__name__}: {str(got)[:120]}'
     t = want[0]
@@ -150,7 +152,7 @@ def mismatch(got, want):
             return f'not a number of the universe: {type(got).__name__} {brief(got, 60)}'
         exp = frac_of(want)
         g = Fraction(got)
-        if g == exp or abs(g - exp) <= Fraction(1, 10 ** 12) * abs(exp):
+        if g == exp or abs(g - exp) <= Fraction(1, 10 ** 12) * max(abs(exp), scale):
             return None
         return f'number {brief(got)} != {float(exp)!r}'
     if t == 'B':
